@@ -925,6 +925,31 @@ def r23(ctx, P):
                 n += 1
                 counts = [show(strip_casts(a)) for a in c.args if not mentions(a)]
                 ok = cap in counts
+                # or a local that is clamped to the capacity:  if (n > CAP) n = CAP;
+                src_ok = True
+                for a in c.args:
+                    a0 = strip_casts(a)
+                    if mentions(a) or a0.get('op') != 'ref' or a0.get('rk') != 'local':
+                        continue
+                    clamps = [e_ for e_ in fn.stores() if strip_casts(e_.store_parts()[0]).get('name') == a0['name'] and e_.store_parts()[1] is not None and
+                              show(strip_casts(e_.store_parts()[1])) == cap and
+                              any(fn.blocks[bid].cond is not None and strip_casts(fn.blocks[bid].cond).get('op') == 'bin' and strip_casts(fn.blocks[bid].cond)['o'] in ('>', '>=') and
+                                  show(strip_casts(strip_casts(fn.blocks[bid].cond)['k'][0])) == a0['name'] and show(strip_casts(strip_casts(fn.blocks[bid].cond)['k'][1])) == cap and lab == 'T'
+                                  for (bid, lab) in control_deps_transitive(fn, e_.block.id))]
+                    if clamps and any(ev_dominates(cl, c) or find_path(fn, cl, lambda e2, facts: 'target' if e2 is c else None, refine=False) is not None for cl in clamps):
+                        # every other definition must precede a clamp test: the local is compared with CAP on every path to the call
+                        gb = {cl.block.id for cl in clamps}
+                        tests = set()
+                        for cl in clamps:
+                            for (bid, lab) in control_deps_transitive(fn, cl.block.id):
+                                tests.add(bid)
+                        defs_ = [e_ for e_ in fn.events() if (e_.k == 'decl' and e_.name == a0['name']) or
+                                 (e_.k == 'store' and strip_casts(e_.store_parts()[0]).get('name') == a0['name'] and e_ not in clamps)]
+                        bypass = any(find_path(fn, d_, lambda e2, facts: 'target' if e2 is c else None, refine=False,
+                                               edge_ok=lambda b_, s_, lab: b_.id not in tests) is not None for d_ in defs_)
+                        if not bypass:
+                            ok = True
+                            counts = ['%s clamped to %s' % (a0['name'], cap)]
                 ctx.ob('C10.23', ok, fn.name, '%s(%s->start, count)' % (c.callee, field), c.where(),
                        'filled with exactly the count it was allocated for (%s)' % cap if ok else
                        'the buffer was allocated for %s elements but the filler is given %s' % (cap, counts))
@@ -1122,3 +1147,163 @@ def r25(ctx, P):
                    'the divisor %s can be 0 (e.g. two neighbouring entries with the same value): the quotient is inf or NaN and its conversion to an integer is undefined behaviour - on x86 the caller receives INT64_MIN as a valid result' % dtxt,
                    w.render() if w else None)
     ctx.floor('floating quotients converted to integers', n, 1)
+
+
+def r27(ctx, P):
+    """allocation sizes keep their 64 bits: no product of run-time quantities is cut to 32 bits on its way to an allocator"""
+    ALLOC = {'malloc': 0, 'calloc': None, 'realloc': 1, 'jls_buf_realloc': 1}
+    n = 0
+    for fn in P.all_functions():
+        if not fn.file.startswith('src/'):
+            continue
+        for c in fn.calls(tuple(ALLOC)):
+            idxs = [ALLOC[c.callee]] if ALLOC[c.callee] is not None else [0, 1]
+            for i in idxs:
+                if i >= len(c.args):
+                    continue
+                n += 1
+                ctx.saw(fn, 1)
+                bad = _narrowed_product(P, fn, c.args[i], c.block, c.idx, 0, set())
+                ctx.ob('C10.27', bad is None, fn.name, 'size handed to %s()' % c.callee, c.where(),
+                       'computed without a narrowed product' if bad is None else
+                       'the size comes from %s: a count x element-size product that is cut to 32 bits wraps for large counts (a definition parameter near 2^28 and above), the block is far smaller than what is then stored into it' % bad)
+    ctx.floor('allocation size arguments', n, 15)
+
+
+def _narrowed_product(P, fn, e, block, idx, depth, seen):
+    """text of a narrowing cast (to 32 bits) over a product of two non-constant operands that feeds e, else None"""
+    if e is None or depth > 4:
+        return None
+    def is_product(x):
+        for m in walk(x):
+            if m.get('op') == 'bin' and m['o'] == '*' and const_of(m['k'][0]) is None and const_of(m['k'][1]) is None:
+                return True
+            if m.get('op') == 'bin' and m['o'] == '*' and (const_of(m['k'][0]) is None or const_of(m['k'][1]) is None):
+                # count x sizeof: one side constant, the other a run-time count of at least 32 bits
+                other = m['k'][0] if const_of(m['k'][0]) is None else m['k'][1]
+                if strip_casts(other).get('t') in ('u32', 'i32', 'u64', 'i64'):
+                    return True
+        return False
+    for m in walk(e):
+        if m.get('op') == 'cast' and m.get('t') in ('u32', 'i32') and strip_casts(m['k'][0]).get('t') in ('u64', 'i64') and is_product(m['k'][0]):
+            return '`%s`' % show(m)[:70]
+    for m in walk(e):
+        if m.get('op') == 'ref' and m.get('rk') == 'local' and (fn.name, m['name']) not in seen:
+            seen.add((fn.name, m['name']))
+            defs, _ = df.reaching_defs(fn, m['name'], block, idx)
+            for d in defs:
+                rhs = d.e if d.k == 'decl' else d.store_parts()[1]
+                r = _narrowed_product(P, fn, rhs, d.block, d.idx, depth + 1, seen)
+                if r:
+                    return r
+        if m.get('op') == 'call':
+            g = P.functions.get(m.get('callee'))
+            if g is not None and g.file == fn.file and g.static and g.name not in seen:
+                seen.add(g.name)
+                for rt in g.returns():
+                    r = _narrowed_product(P, g, rt.e, rt.block, rt.idx, depth + 1, seen)
+                    if r:
+                        return r + ' in %s()' % g.name
+    return None
+
+
+def r28(ctx, P):
+    """a local pointer into the core read buffer is not used across a call that can move the buffer"""
+    # functions that can reallocate <core>.buf: reach jls_buf_realloc through the chunk read
+    movers = set()
+    for g in P.all_functions():
+        if g.name in ('jls_core_rd_chunk',) or (g.file in ('src/core.c', 'src/reader.c', 'src/track.c') and
+                                                'jls_core_rd_chunk' in P.reachable_from([g.name]) and g.name != 'jls_core_rd_chunk'):
+            movers.add(g.name)
+    movers.add('jls_core_rd_chunk')
+    movers.add('reconstruct_omitted_chunk')
+    n = 0
+    for fn in P.all_functions():
+        if fn.file not in ('src/core.c', 'src/reader.c', 'src/track.c', 'src/copy.c'):
+            continue
+        # pointer locals taken from <x>.buf->start
+        ptrs = {}
+        for ev in fn.events():
+            if ev.k not in ('decl', 'store') or ev.e is None:
+                continue
+            rhs = ev.e if ev.k == 'decl' else ev.store_parts()[1]
+            name = ev.name if ev.k == 'decl' else (strip_casts(ev.store_parts()[0]).get('name') if strip_casts(ev.store_parts()[0]).get('op') == 'ref' else None)
+            if rhs is None or name is None:
+                continue
+            if ev.k == 'store' and ev.store_parts()[2] != '=':
+                continue
+            src = [m for m in walk(rhs) if m.get('op') == 'member' and m.get('field') == 'start' and m.get('rec') == 'jls_buf_s']
+            if not src:
+                continue
+            p = fn.path(src[0])
+            if p is None or '.buf' not in tuple(p):
+                continue          # rd_index / rd_summary have their own buffers, filled by copies
+            ptrs.setdefault(name, []).append(ev)
+        for name, defs in sorted(ptrs.items()):
+            uses = []
+            for ev in fn.events():
+                if ev.e is None or ev in defs:
+                    continue
+                for m in walk(ev.e):
+                    if m.get('op') in ('member', 'sub', 'un') and m.get('op') != 'un' or (m.get('op') == 'un' and m.get('o') == '*'):
+                        base = m['k'][0] if m.get('k') else None
+                        b0 = strip_casts(base) if base is not None else None
+                        if b0 is not None and b0.get('op') == 'ref' and b0.get('name') == name:
+                            uses.append(ev)
+                            break
+            for b in fn.blocks.values():
+                if b.cond is not None and any(m.get('op') in ('member', 'sub') and m.get('k') and strip_casts(m['k'][0]).get('op') == 'ref' and strip_casts(m['k'][0]).get('name') == name for m in walk(b.cond)):
+                    pass          # conditions are checked through the events of their block's predecessors
+            if not uses:
+                continue
+            n += 1
+            ctx.saw(fn, 1)
+            bad = None
+            mv = [c for c in fn.calls() if c.callee in movers]
+            for d in defs:
+                for c in mv:
+                    w1 = find_path(fn, d, lambda e2, facts: 'stop' if (e2 in defs and e2 is not d) else ('target' if e2 is c else None), refine=False)
+                    if w1 is None:
+                        continue
+                    w2 = find_path(fn, c, lambda e2, facts: 'stop' if e2 in defs else ('target' if e2 in uses else None), refine=False)
+                    if w2 is not None:
+                        bad = (c, w2)
+                        break
+                if bad:
+                    break
+            ctx.ob('C10.28', bad is None, fn.name, 'pointer %s into the read buffer' % name, defs[0].where(),
+                   'taken again after every call that can move the buffer' if bad is None else
+                   '%s is taken from the read buffer, %s() can then reallocate that buffer (a chunk larger than the buffer), and %s is used afterwards without being taken again: a read through freed memory' % (name, bad[0].callee, name),
+                   bad[1].render() if bad else None)
+    ctx.floor('pointer locals into the core read buffer', n, 8)
+
+
+
+def r29(ctx, P):
+    """sample conversion reads no more samples from a chunk than the chunk holds"""
+    n = 0
+    for fn in P.all_functions():
+        if fn.file not in ('src/reader.c', 'src/core.c'):
+            continue
+        for c in fn.calls('jls_dt_buffer_to_f64'):
+            if len(c.args) < 4:
+                continue
+            # the source is the payload of the chunk in the read buffer:  &s->data[0]  with s a pointer local into buf->start
+            srcs = [m for m in walk(c.args[0]) if m.get('op') == 'member' and m.get('field') == 'data']
+            if not srcs:
+                continue
+            n += 1
+            ctx.saw(fn, 1)
+            cnt = strip_casts(c.args[3])
+            texts = [show(cnt)]
+            if cnt.get('op') == 'ref' and cnt.get('rk') == 'local':
+                for e_ in fn.events():
+                    if (e_.k == 'decl' and e_.name == cnt['name'] and e_.e is not None):
+                        texts.append(show(e_.e))
+                    elif e_.k == 'store' and strip_casts(e_.store_parts()[0]).get('name') == cnt['name'] and e_.store_parts()[1] is not None:
+                        texts.append(show(e_.store_parts()[1]))
+            ok = any('entry_count' in t_ for t_ in texts)
+            ctx.ob('C10.29', ok, fn.name, 'samples converted from the chunk in the read buffer', c.where(),
+                   'the count comes from the entry count of the chunk (%s)' % texts[-1][:40] if ok else
+                   'the converter is told to read %s samples whatever the chunk holds: for a short chunk (the last block, or a block size above what the 1 MiB read buffer holds) it reads past the payload and past the buffer' % texts[0])
+    ctx.floor('conversions of chunk payloads', n, 2)
